@@ -633,6 +633,22 @@ def check(ctx):
               "with check_type=True a float position is checked with isinstance(obj, float) alone: serialize(float, 1, check_type=True) raises TypeCheckError while serialize(float, 1) returns 1 (and deserialize(float, 1) accepts the integer)",
               sp, sp.node, detail="expected class (float, int) for float")
 
+    # ---------------- R9: pass_through designates classes by membership
+    ctx.rule("C08.R9", "a pass_through collection designates exactly the classes it lists (`elt in collection`): widening the predicate to the base classes of a listed class (issubclass(listed, visited)) passes every Sequence / Collection typed value through unvalidated as soon as bytes or a tuple subclass is listed", floor=2)
+    ap = model.func("apischema.utils.as_predicate")
+    wr = [f for f in ap.nested.values()]
+    ctx.require(len(wr) == 1, "as_predicate: wrapper closure not found")
+    w = wr[0]
+    rets9 = [r for r in ast.walk(w.node) if isinstance(r, ast.Return) and r.value is not None]
+    elt9 = w.params[0]
+    truthy = [r for r in rets9 if not (isinstance(r.value, ast.Constant) and r.value.value is False)]
+    ok9 = bool(truthy) and all(isinstance(r.value, ast.Compare) and len(r.value.ops) == 1 and isinstance(r.value.ops[0], ast.In) and norm(r.value.left) == elt9 for r in truthy)
+    widen = [c for c in ast.walk(w.node) if isinstance(c, ast.Call) and dotted(c.func) in ("issubclass", "isinstance")]
+    ctx.check(ok9 and not widen, "C08.R9", f"{ap.qualname}:membership", None,
+              f"the predicate built from a collection is not plain membership" + (f" (`{short(widen[0], 50)}`)" if widen else "") + ": with pass_through={bytes}, issubclass(bytes, Sequence) holds, every Sequence[...] / Collection[...] position is wrapped in a type check that returns any list as it is - deserialize(Sequence[int], ['a']) returns ['a']",
+              ap, widen[0] if widen else w.node, detail=f"return {elt9} in collection")
+    ctx.check(any(isinstance(n, ast.If) and norm(n.test).startswith("not isinstance(collection_or_predicate, Collection)") for n in walk_no_nested(ap.node)), "C08.R9", f"{ap.qualname}:predicate", None, "a predicate given by the user is no longer returned as it is", ap, ap.node, detail="callable returned unchanged", nontrivial=False)
+
 
 def eval_order(node):
     """child-method attributes invoked by a statement list, in Python evaluation order"""
@@ -694,6 +710,7 @@ def order_rule(ctx):
 
 
 def mutants(mb):
+    mb.add_text("pass-through-superclasses", "apischema/utils.py", "            return elt in collection\n", "            return elt in collection or (isinstance(elt, type) and any(issubclass(cls, elt) for cls in collection if isinstance(cls, type)))\n", "C08.R9", "membership")
     mb.add_text("check-type-float-exact", "apischema/serialization/__init__.py", "            return TypeCheckIdentityMethod((float, int), self._any_fallback(cls))\n", "            return TypeCheckIdentityMethod(float, self._any_fallback(cls))\n", "C08.R8", "float")
     mb.add_text("discriminator-key-written-in-place", "apischema/serialization/methods.py", "            res = {**res, self.alias: self.key}\n", "            res[self.alias] = self.key\n", "C08.R6", "DiscriminatedAlternative")
     D = "apischema/deserialization/__init__.py"
